@@ -118,11 +118,11 @@ theorem mem_replicate_zero_lt {n d : Nat} (h : d ∈ List.replicate n 0) : d < 1
   have := (List.mem_replicate.mp h).2; omega
 
 theorem sciShape_digits (noEWF : Bool) (ds : List Nat) (sci : Int) (o : WOpts)
-    (hR : DigitsOk (truncateAndRound ds o).1) :
-    ShapeDigits (sciShape noEWF ds sci o) (truncateAndRound ds o).1
-      (sci + (if (truncateAndRound ds o).2 then 1 else 0)) := by
+    (hR : DigitsOk (roundSci ds o).1) :
+    ShapeDigits (sciShape noEWF ds sci o) (roundSci ds o).1
+      (sci + (if (roundSci ds o).2 then 1 else 0)) := by
   unfold sciShape
-  generalize truncateAndRound ds o = tr at *
+  generalize roundSci ds o = tr at *
   obtain ⟨R, c⟩ := tr
   simp only [] at hR ⊢
   obtain ⟨d, t, rfl⟩ : ∃ d t, R = d :: t := by
@@ -242,12 +242,12 @@ theorem negShape_digits (ds : List Nat) (sci : Int) (o : WOpts) (hneg : sci < 0)
           omega
 
 theorem posShape_digits (ds : List Nat) (sci : Int) (o : WOpts) (hpos : 0 ≤ sci)
-    (hR : DigitsOk (truncateAndRound ds o).1)
-    (hzero : (truncateAndRound ds o).1.head? = some 0 → sci = 0 ∧ (truncateAndRound ds o).2 = false) :
-    ShapeDigits (posShape ds sci o) (truncateAndRound ds o).1
-      (sci + (if (truncateAndRound ds o).2 then 1 else 0)) := by
+    (hR : DigitsOk (roundPos ds sci o).1)
+    (hzero : (roundPos ds sci o).1.head? = some 0 → sci = 0 ∧ (roundPos ds sci o).2 = false) :
+    ShapeDigits (posShape ds sci o) (roundPos ds sci o).1
+      (sci + (if (roundPos ds sci o).2 then 1 else 0)) := by
   unfold posShape
-  generalize truncateAndRound ds o = tr at *
+  generalize roundPos ds sci o = tr at *
   obtain ⟨R, c⟩ := tr
   simp only [] at hR hzero ⊢
   have hRlen : 1 ≤ R.length := by
@@ -353,28 +353,64 @@ structure WriterInput (ds : List Nat) (sci : Int) : Prop where
   ok : DigitsOk ds
   zero : ds = [0] → sci = 0
 
+theorem trimSci_ok (o : WOpts) (ds : List Nat) (h : DigitsOk ds) : DigitsOk (trimSci o ds) := by
+  unfold trimSci
+  split
+  · cases ds with
+    | nil => exact absurd rfl h.ne
+    | cons d t =>
+      refine ⟨by simp, fun x hx => h.lt x (by simp at hx; simp [hx]), fun h0 => ?_⟩
+      simp at h0; simp [h0]
+  · exact h
+
+theorem trimPos_ok (o : WOpts) (l : Nat) (ds : List Nat) (h : DigitsOk ds) (hl : 1 ≤ l) : DigitsOk (trimPos o l ds) := by
+  unfold trimPos
+  split
+  · rename_i hc
+    cases ds with
+    | nil => exact absurd rfl h.ne
+    | cons d t =>
+      obtain ⟨k, rfl⟩ : ∃ k, l = k + 1 := ⟨l - 1, by omega⟩
+      refine ⟨by simp, fun x hx => h.lt x (List.mem_of_mem_take hx), fun h0 => ?_⟩
+      simp only [List.take_succ_cons, List.head?_cons, Option.some.injEq] at h0
+      have := h.head (by simp [h0])
+      simp only [List.cons.injEq] at this
+      simp [h0, this.2]
+  · exact h
+
+theorem trimPos_head (o : WOpts) (l : Nat) (ds : List Nat) (hl : 1 ≤ l) : (trimPos o l ds).head? = ds.head? := by
+  unfold trimPos
+  split
+  · obtain ⟨k, rfl⟩ : ∃ k, l = k + 1 := ⟨l - 1, by omega⟩
+    cases ds <;> simp
+  · rfl
+
 theorem shapeN_digits (fmt : Format) (ds : List Nat) (sci : Int) (o : WOpts) (hin : WriterInput ds sci)
     (hmx : o.maxDigits ≠ some 0) :
-    ShapeDigits (shapeN fmt ds sci o) (truncateAndRound ds o).1
+    ShapeDigits (shapeN fmt ds sci o) (keptN fmt ds sci o)
       (sci + (if (truncateAndRound ds o).2 then 1 else 0)) := by
   have hR := truncateAndRound_ok ds o hin.ok hmx
-  unfold shapeN
+  unfold shapeN keptN
   simp only []
   split
-  · exact sciShape_digits _ ds sci o hR
+  · exact sciShape_digits _ ds sci o (trimSci_ok o _ hR)
   · split
     · rename_i hneg; exact negShape_digits ds sci o hneg hR
     · rename_i hpos
-      refine posShape_digits ds sci o (by omega) hR ?_
+      have hl : 1 ≤ sci.toNat + 1 + (if (truncateAndRound ds o).2 = true then 1 else 0) := by omega
+      refine posShape_digits ds sci o (by omega) (trimPos_ok o _ _ hR hl) ?_
       intro h0
-      have hds := truncateAndRound_head_zero ds o hin.ok hmx h0
+      have h0' : (truncateAndRound ds o).1.head? = some 0 := by
+        rw [← trimPos_head o _ _ hl]; exact h0
+      have hds := truncateAndRound_head_zero ds o hin.ok hmx h0'
       subst hds
+      show sci = 0 ∧ (truncateAndRound [0] o).2 = false
       rw [truncateAndRound_zero o hmx]
       exact ⟨hin.zero rfl, rfl⟩
 
 theorem shapeC_digits (fmt : Format) (ds : List Nat) (sci : Int) (o : WOpts) (hin : WriterInput ds sci)
     (hmx : o.maxDigits ≠ some 0) :
-    ShapeDigits (shapeC fmt ds sci o) (truncateAndRound ds o).1
+    ShapeDigits (shapeC fmt ds sci o) (keptC fmt ds sci o)
       (sci + (if (truncateAndRound ds o).2 then 1 else 0)) := by
   have hR := truncateAndRound_ok ds o hin.ok hmx
   have hin' : WriterInput (truncateAndRound ds o).1 (sci + (if (truncateAndRound ds o).2 then 1 else 0)) := by
@@ -387,13 +423,13 @@ theorem shapeC_digits (fmt : Format) (ds : List Nat) (sci : Int) (o : WOpts) (hi
   have h := shapeN_digits fmt (truncateAndRound ds o).1 (sci + (if (truncateAndRound ds o).2 then 1 else 0))
     { o with maxDigits := none } hin' (by simp)
   rw [truncateAndRound_none (truncateAndRound ds o).1 { o with maxDigits := none } rfl] at h
-  simpa [shapeC] using h
+  simpa [shapeC, keptC] using h
 
 theorem shapeOf_digits (fmt : Format) (feats : Features) (ds : List Nat) (sci : Int) (o : WOpts)
     (hin : WriterInput ds sci) (hmx : o.maxDigits ≠ some 0) :
-    ShapeDigits (shapeOf fmt feats ds sci o) (truncateAndRound ds o).1
+    ShapeDigits (shapeOf fmt feats ds sci o) (keptOf fmt feats ds sci o)
       (sci + (if (truncateAndRound ds o).2 then 1 else 0)) := by
-  unfold shapeOf
+  unfold shapeOf keptOf
   split
   · exact shapeC_digits _ ds sci o hin hmx
   · exact shapeN_digits _ ds sci o hin hmx
@@ -414,7 +450,7 @@ theorem negShape_exp (ds : List Nat) (sci : Int) (o : WOpts) : (negShape ds sci 
 
 theorem posShape_exp (ds : List Nat) (sci : Int) (o : WOpts) : (posShape ds sci o).exp = none := by
   unfold posShape; simp only []
-  by_cases c1 : sci.toNat + 1 + (if (truncateAndRound ds o).2 = true then 1 else 0) ≥ (truncateAndRound ds o).1.length
+  by_cases c1 : sci.toNat + 1 + (if (roundPos ds sci o).2 = true then 1 else 0) ≥ (roundPos ds sci o).1.length
   · rw [if_pos c1]; by_cases c2 : o.trim = true <;> simp [c2]
   · rw [if_neg c1]
 
